@@ -488,7 +488,7 @@ fn format_function(
 /// 4 `^`, 5 prefix sign / postfix `%`, 6 `:`, 7 `@` / `#`, 8 primary. A child printed in a
 /// position that the parser reads at a tighter level has to be parenthesised, otherwise the
 /// text parses back into a different formula (`(1+2)%` would become `1+2%`).
-fn precedence_level(node: &Node) -> u8 {
+pub(crate) fn precedence_level(node: &Node) -> u8 {
     match node {
         Node::CompareKind { .. } => 0,
         Node::OpConcatenateKind { .. } => 1,
